@@ -6,6 +6,81 @@ Require Import SC3.model.ProtoGrammar SC3.model.Proto SC3.gen.Gen_proto.
 Require Import SC3.proofs.C17_gram SC3.proofs.C17_args SC3.proofs.C17_bind SC3.proofs.C17_life SC3.proofs.C17_conform SC3.proofs.C17_optac.
 Open Scope string_scope. Open Scope Z_scope. Open Scope list_scope.
 
+Lemma og_OBufSendList : forall n L s a0 a1 a2 s1 sends e,
+  InvO L s -> wf_op n s (OBufSendList a0 a1 a2) = true -> obj_step repaired s (OBufSendList a0 a1 a2) = (s1, sends, e) ->
+  InvO (op_ids s (OBufSendList a0 a1 a2) ++ L) s1 /\ Forall (Good (op_ids s (OBufSendList a0 a1 a2) ++ L)) (flat_map send_msgs sends).
+Proof.
+  intros n L s a0 a1 a2 s1 sends e I Hw H.
+  cbn [wf_op] in Hw; try discriminate Hw; split_ands.
+  unfold obj_step, obj_step_core, ok, fail in H.
+  brk_hyp H; inversion H; subst; clear H.
+  all: cbn [flat_map send_msgs app].
+  all: cbn [op_ids].
+  all: pose proof (io_dg _ _ I) as [DG DGS].
+  all: change (v_dict_brackets repaired) with false in *.
+  all: (split; [ try solve [inv_tac I] | try solve [constructor] ]).
+  all: try solve [ use_target L I; use_nodes L I; unfold pargroup_creation_cmd, group_creation_cmd, py_int in *;
+                   brk_eqs; bools; goods ].
+  all: try solve [ bools; brk_eqs; toks; match goal with G : get_buf _ _ = Some _ |- _ => use_buf L I G end;
+                   repeat match goal with G : get_buf _ _ = Some _ |- _ => use_buf L I G end;
+                   ions; brk_eqs; goods ].
+  all: try solve [ bools; brk_eqs; toks; match goal with G : get_bus _ _ = Some _ |- _ => use_bus L I G end; ions; brk_eqs; goods ].
+  all: match goal with G : get_buf _ _ = Some _ |- _ => use_buf L I G end; ions; brk_eqs.
+  all: rewrite flat_map_smsg_id; apply stream_good; [known_tac | assumption].
+
+Qed.
+
+Lemma og_OBufNewSendList : forall n L s a0 a1 a2 s1 sends e,
+  InvO L s -> wf_op n s (OBufNewSendList a0 a1 a2) = true -> obj_step repaired s (OBufNewSendList a0 a1 a2) = (s1, sends, e) ->
+  InvO (op_ids s (OBufNewSendList a0 a1 a2) ++ L) s1 /\ Forall (Good (op_ids s (OBufNewSendList a0 a1 a2) ++ L)) (flat_map send_msgs sends).
+Proof.
+  intros n L s a0 a1 a2 s1 sends e I Hw H.
+  cbn [wf_op] in Hw; try discriminate Hw; split_ands.
+  unfold obj_step, obj_step_core, ok, fail in H.
+  brk_hyp H; inversion H; subst; clear H.
+  all: cbn [flat_map send_msgs app].
+  all: cbn [op_ids].
+  all: pose proof (io_dg _ _ I) as [DG DGS].
+  all: change (v_dict_brackets repaired) with false in *.
+  all: (split; [ try solve [inv_tac I] | try solve [constructor] ]).
+  all: try solve [ use_target L I; use_nodes L I; unfold pargroup_creation_cmd, group_creation_cmd, py_int in *;
+                   brk_eqs; bools; goods ].
+  all: try solve [ bools; brk_eqs; toks; match goal with G : get_buf _ _ = Some _ |- _ => use_buf L I G end;
+                   repeat match goal with G : get_buf _ _ = Some _ |- _ => use_buf L I G end;
+                   ions; brk_eqs; goods ].
+  all: try solve [ bools; brk_eqs; toks; match goal with G : get_bus _ _ = Some _ |- _ => use_bus L I G end; ions; brk_eqs; goods ].
+  all: match goal with A : alloc_bufnum _ _ _ _ = Some _ |- _ => new_buf I A 1%nat end.
+  all: try solve [apply invO_add_buf_none; assumption].
+  all: try solve [apply invO_add_buf; [assumption | apply KN; left; reflexivity | reflexivity | reflexivity]].
+  all: cbn [flat_map send_msgs app]; rewrite flat_map_smsg_id; constructor;
+       [good_fixed | apply stream_good; [apply KN; left; reflexivity | assumption]].
+
+Qed.
+
+Lemma og_OBufGetToList : forall n L s a0 a1 a2 s1 sends e,
+  InvO L s -> wf_op n s (OBufGetToList a0 a1 a2) = true -> obj_step repaired s (OBufGetToList a0 a1 a2) = (s1, sends, e) ->
+  InvO (op_ids s (OBufGetToList a0 a1 a2) ++ L) s1 /\ Forall (Good (op_ids s (OBufGetToList a0 a1 a2) ++ L)) (flat_map send_msgs sends).
+Proof.
+  intros n L s a0 a1 a2 s1 sends e I Hw H.
+  cbn [wf_op] in Hw; try discriminate Hw; split_ands.
+  unfold obj_step, obj_step_core, ok, fail in H.
+  brk_hyp H; inversion H; subst; clear H.
+  all: cbn [flat_map send_msgs app].
+  all: cbn [op_ids].
+  all: pose proof (io_dg _ _ I) as [DG DGS].
+  all: change (v_dict_brackets repaired) with false in *.
+  all: (split; [ try solve [inv_tac I] | try solve [constructor] ]).
+  all: try solve [ use_target L I; use_nodes L I; unfold pargroup_creation_cmd, group_creation_cmd, py_int in *;
+                   brk_eqs; bools; goods ].
+  all: try solve [ bools; brk_eqs; toks; match goal with G : get_buf _ _ = Some _ |- _ => use_buf L I G end;
+                   repeat match goal with G : get_buf _ _ = Some _ |- _ => use_buf L I G end;
+                   ions; brk_eqs; goods ].
+  all: try solve [ bools; brk_eqs; toks; match goal with G : get_bus _ _ = Some _ |- _ => use_bus L I G end; ions; brk_eqs; goods ].
+  all: match goal with G : get_buf _ _ = Some _ |- _ => use_buf L I G end; ions; brk_eqs.
+  all: rewrite flat_map_smsg_id; apply getn_good; known_tac.
+
+Qed.
+
 Lemma og_OBusNew : forall n L s a0 a1 a2 a3 s1 sends e,
   InvO L s -> wf_op n s (OBusNew a0 a1 a2 a3) = true -> obj_step repaired s (OBusNew a0 a1 a2 a3) = (s1, sends, e) ->
   InvO (op_ids s (OBusNew a0 a1 a2 a3) ++ L) s1 /\ Forall (Good (op_ids s (OBusNew a0 a1 a2 a3) ++ L)) (flat_map send_msgs sends).
